@@ -129,11 +129,13 @@ def gen_cases(rng, tier):
         d = len(s)
         for ax in range(-(d + 1), d + 1):
             add("expand_dims1", "%s %d" % (fmt_vec(s), ax), shape=s, axes=ax)
-        for L in (2,) if quick else (2, 3):
+        for L in (2, 3):
             nd = d + L
-            combos = list(itertools.combinations(range(nd), L))
-            if len(combos) > (4 if quick else 20):
-                combos = rng.sample(combos, 4 if quick else 20)
+            # axis lists in ANY order (NumPy treats them as a set): permutations, not combinations
+            combos = list(itertools.permutations(range(nd), L))
+            lim = (4 if L == 2 else 2) if quick else 20
+            if len(combos) > lim:
+                combos = rng.sample(combos, lim)
             for c in combos:
                 cv = [axis_variants(a, nd, rng) for a in c]
                 add("expand_dims", "%s %s" % (fmt_vec(s), fmt_vec(cv)), shape=s, axes=cv)
@@ -152,12 +154,13 @@ def gen_cases(rng, tier):
             if rng.random() < (0.4 if quick else 1.0):
                 ax2 = ax + d if ax < 0 and rng.random() < 0.5 else ax
                 add("flip2", "%s %d %d" % (fmt_vec(s), ax, ax2), shape=s, ax1=ax, ax2=ax2)
-        for L in (2,) if quick else (2, 3):
+        for L in (2, 3):
             if d < L:
                 continue
-            combos = list(itertools.combinations(range(d), L))
-            if len(combos) > 4 and quick:
-                combos = rng.sample(combos, 4)
+            # axis lists in ANY order (descending, mixed-sign ...): permutations, not combinations
+            combos = list(itertools.permutations(range(d), L))
+            if quick and len(combos) > (6 if L == 2 else 4):
+                combos = [c for c in combos if list(c) != sorted(c)][:2] + rng.sample(combos, 4 if L == 2 else 2)
             for c in combos:
                 cv = [axis_variants(a, d, rng) for a in c]
                 add("flip", "%s %s" % (fmt_vec(s), fmt_vec(cv)), shape=s, axes=cv)
